@@ -111,7 +111,7 @@ func firstDiffLine(a, b string) string {
 
 func TestC16L1(t *testing.T) {
 	rec := evid.For("C16")
-	runRapid(t, 500, 8000, func(rt *rapid.T) {
+	runRapid(t, 250, 8000, func(rt *rapid.T) {
 		c := rec.Begin()
 		c.Class("L1")
 		w := newL1World(rt, l1Cfg{weights: c16Weights, maxBridges: 4, withFee: true, badCfgProb: 5, manyBridges: true, periods: []time.Duration{time.Second, time.Minute, time.Hour}})
@@ -241,7 +241,7 @@ func l2Queries(l2 *henv.L2, denoms []string, ops []sdk.ValAddress) string {
 
 func TestC16L2(t *testing.T) {
 	rec := evid.For("C16")
-	runRapid(t, 500, 8000, func(rt *rapid.T) {
+	runRapid(t, 250, 8000, func(rt *rapid.T) {
 		c := rec.Begin()
 		c.Class("L2")
 		nGen := rapid.IntRange(1, 3).Draw(rt, "genesis")
